@@ -125,39 +125,15 @@ def run(ctx, rep):
     # chunk. "Symbol zero" (the ELF null symbol, never resolved) must therefore be recognised by chunk start + index: testing the bare
     # index would also skip the first symbol of every later chunk, and an archive member needed only by that symbol is never loaded.
     rep.rule("null-symbol-skip", "in resolve_symbols the `== 0` test that skips the null symbol compares start_symbol_offset + index, not the chunk-relative index")
-    import decide as _d
-    rs_ = F.body(R + "resolve_symbols")
-    cls = F.closures_of(R + "resolve_symbols")
-    if rs_ is None or not cls:
+    import chunkidx
+    r_ = chunkidx.analyse(F, P)
+    if r_ is None:
         rep.lost("null-symbol-skip", R + "resolve_symbols and its closure")
     else:
-        pflow = P.flow(rs_)
-        cap = None
-        for bi, blk in enumerate(rs_.blocks):
-            for st in blk["s"]:
-                if st["k"] == "assign" and st["rv"]["k"] == "agg" and st["rv"].get("ak") == "closure":
-                    for i_, o in enumerate(st["rv"]["ops"]):
-                        pl = op_place(o)
-                        if pl is None:
-                            continue
-                        og = pflow.origins(o)
-                        if any(x[0] == "param" and (rs_.local_name(x[1]) or "") == "start_symbol_offset" for x in og):
-                            cap = i_
-        # is the enumerate() index chunk-relative? yes when enumerate is applied to the result of skip(start_symbol_offset)
-        relative = None
-        for bi, t in pflow.calls():
-            if (callee_key(t["f"]) or "").endswith("Iterator::enumerate") and t["args"]:
-                relative = any(x[0] == "call" and (x[1] or "").endswith("Iterator::skip") for x in pflow.deep_origins(t["args"][0]))
-        n_zero = 0
-        for c in cls:
-            for e, (a, v) in _d.all_edge_atoms_full(P, F, c).items():
-                if a.startswith("bin:Eq(") and a.endswith(", 0)") and v is True:
-                    n_zero += 1
-                    lhs = a[len("bin:Eq("):-len(", 0)")]
-                    has_cap = cap is not None and f"_1.{cap}" in lhs
-                    rep.ob("null-symbol-skip", "absolute-index", (has_cap and lhs.startswith("Add(")) or relative is False,
-                           f"the zero test is on `{lhs}`" + ("" if has_cap else f" — it does not include the captured start_symbol_offset (capture #{cap}): the first symbol of every chunk after the first would be skipped"), c.file, c.line)
-        rep.ob("null-symbol-skip", "present", n_zero >= 1 and cap is not None, f"{n_zero} `== 0` test(s) in the closure; start_symbol_offset is capture #{cap}", rs_.file, rs_.line)
+        bad = [u for u in r_["uses"] if not u[3]] if r_["relative"] is not False else []
+        rep.ob("null-symbol-skip", "present", len(r_["uses"]) >= 1 and r_["cap"] is not None, f"{len(r_['uses'])} use(s) of the enumerate index in the closure; start_symbol_offset is capture #{r_['cap']}; index is {'chunk-relative' if r_['relative'] else 'absolute'}", "libwild/src/resolution.rs", 0)
+        for c_, line, kind, ok, detail in r_["uses"]:
+            rep.ob("null-symbol-skip", f"absolute-index:{kind}", ok or r_["relative"] is False, detail + ("" if ok else ": symbols beyond the first chunk of 5000 are confused with those of the first chunk (the first symbol of each later chunk is skipped as `symbol zero`, references are recorded under the wrong symbol)"), c_.file, line)
 
     # ---- is_optional: boolean function (truth table over MIR decision atoms; robust to reordering / let-extraction) ----
     import decide
